@@ -148,7 +148,7 @@ func gitFamily(c map[string]json.RawMessage) (interface{}, error) {
 		if err := json.Unmarshal(c["history"], &hist); err != nil {
 			return nil, err
 		}
-		dir, err := buildRepo(hist)
+		dir, err := buildRepo(hist, boolean(c, "quotepath"))
 		if dir != "" {
 			defer os.RemoveAll(dir)
 		}
@@ -206,7 +206,7 @@ func gitFamily(c map[string]json.RawMessage) (interface{}, error) {
 }
 
 // buildRepo replays a generated history (commits with file operations, optional side branch + merge) in a fresh repository
-func buildRepo(hist []gitCommit) (string, error) {
+func buildRepo(hist []gitCommit, quotepath bool) (string, error) {
 	dir, err := os.MkdirTemp("", "cvg")
 	if err != nil {
 		return dir, err
@@ -214,7 +214,10 @@ func buildRepo(hist []gitCommit) (string, error) {
 	if _, err := runGit(dir, nil, "init", "-q", "-b", "main", "."); err != nil {
 		return dir, err
 	}
-	runGit(dir, nil, "config", "core.quotepath", "off")
+	if !quotepath {
+		// (with git's default, paths with non-ASCII bytes are printed C-quoted)
+		runGit(dir, nil, "config", "core.quotepath", "off")
+	}
 	for i, cm := range hist {
 		env := commitEnv(cm, i)
 		if len(cm.SideOps) > 0 {
